@@ -53,6 +53,7 @@ func runExact(c *Ctx) {
 			exactCase(c, rng.Fork(), j, pat)
 		}
 	}
+	metricReference(c, rng.Fork())
 	sets := c.ArgInt("recall", c.Pick(2, 10))
 	if sets > 0 {
 		recallCase(c, NewRng(64), -1) // the known finding's witness, every run
@@ -402,4 +403,61 @@ func recallCase(c *Ctx, r *Rng, no int) {
 	}
 	c.Nontrivial("recall")
 	c.End()
+}
+
+// metricReference: "the k nearest" means nearest by the dataset's metric. The exactness checks above rank
+// with the same space.Distance the index uses, so a metric that is wrong in itself (all distances 1 for
+// short vectors, say) would go unnoticed there. Here the metric the index is built on is compared with
+// a float64 computation of the textbook formula, on vectors of ordinary, small (1e-3) and large (1e3)
+// magnitude — all well inside float32's range.
+func metricReference(c *Ctx, r *Rng) {
+	c.Begin("metric vs float64 reference")
+	defer c.End()
+	n := 0
+	for spn := 0; spn < 3; spn++ {
+		sp, spName := spaceByName(spn)
+		for _, scale := range []float64{1, 1e-3, 1e3} {
+			for _, dim := range []int{2, 3, 8, 16, 33} {
+				for rep := 0; rep < 6; rep++ {
+					a, b := make(amath.Vector, dim), make(amath.Vector, dim)
+					for i := range a {
+						a[i], b[i] = float32(r.Norm()*scale), float32(r.Norm()*scale)
+					}
+					var ref, dot, na, nb float64
+					for i := range a {
+						x, y := float64(a[i]), float64(b[i])
+						switch spName {
+						case "euclidean":
+							ref += (x - y) * (x - y)
+						case "manhattan":
+							ref += math.Abs(x - y)
+						default:
+							dot, na, nb = dot+x*y, na+x*x, nb+y*y
+						}
+					}
+					tol := 0.0
+					switch spName {
+					case "euclidean":
+						ref = math.Sqrt(ref)
+						tol = 1e-4 * ref
+					case "manhattan":
+						tol = 1e-4 * ref
+					default:
+						if na == 0 || nb == 0 {
+							continue
+						}
+						ref = math.Abs(1 - dot/math.Sqrt(na*nb))
+						tol = 1e-4
+					}
+					got := float64(sp.Distance(a, b))
+					n++
+					if math.IsNaN(got) || math.Abs(got-ref) > tol {
+						c.Violate("C07", "C07/metric-differs-from-reference", fmt.Sprintf("%s distance of two %d-dimensional vectors of magnitude %g: the index's metric returns %v, the formula gives %v (a=%v b=%v): the index ranks by something that is not the dataset's metric", spName, dim, scale, got, ref, a, b), c.History())
+					}
+				}
+			}
+		}
+	}
+	c.OpLocal("%d distances (3 metrics x magnitudes 1, 1e-3, 1e3 x dimensions 2..33) compared with a float64 computation of the formula", n)
+	c.Nontrivial("metric-reference")
 }
